@@ -1125,3 +1125,64 @@ def rule_take_while(F, rep, rid, pred, where_txt):
         for L, c in take_while_loops(g):
             rep.fail(rid, '%s|%s' % (g.short.split('::')[-1], render(c)[:40]), g.where(L), '%s: the loop condition `%s` ends the loop at the first element for which `%s` fails' % (g.short, render(role(L, 'cond'))[:70], render(c)[:40]))
     rep.ok(rid, 'scan', None, 'no take-while loop in %d functions of %s (fixture: 1 of 2 functions flagged, as expected)' % (n, where_txt))
+
+
+def lost_values(f, is_interesting):
+    """Assignments `x = E` (x a local; is_interesting(E)) whose value can be overwritten by another assignment of x before it was read on
+    some path (the value read from the model is lost).  Returns [(assignment node, overwriting node)]."""
+    cfg = f.cfg()
+    if cfg is None:
+        return []
+    out = []
+    asg = []
+    for a in f.walk():
+        c = a.get('c', [])
+        if ((a.get('k') == 'Call' and a.get('opc') == '=') or (a.get('k') == 'Bin' and a.get('op') == '=')) and c and c[0].get('k') == 'Ref' and c[0].get('dk') == 'local' and f.enclosing_lambda(a) is None:
+            asg.append((a, c[0]['d'], c[1]))
+        elif a.get('k') == 'Var' and c and f.enclosing_lambda(a) is None:
+            asg.append((a, a['d'], c[0]))
+    for a, d, rhs in asg:
+        if not is_interesting(rhs):
+            continue
+        pos = cfg.block_of(a)
+        if pos is None:
+            continue
+
+        def scan(blk, start):
+            for e in blk['el'][start:]:
+                x = f.nodes.get(e)
+                if x is None or x is a:
+                    continue
+                if x.get('k') in ('Bin', 'Call') and (x.get('op') == '=' or x.get('opc') == '=') and x.get('c') and x['c'][0].get('k') == 'Ref' and x['c'][0].get('d') == d:
+                    # the right-hand side is evaluated first: a read there counts
+                    if any(y.get('k') == 'Ref' and y.get('d') == d for y in walk(x['c'][1])):
+                        return 'read', x
+                    return 'write', x
+                if x.get('k') == 'Ref' and x.get('d') == d:
+                    p_ = f.parent(x)
+                    if p_ is not None and ((p_.get('k') == 'Bin' and p_.get('op') == '=') or (p_.get('k') == 'Call' and p_.get('opc') == '=')) and p_['c'][0] is x:
+                        continue
+                    return 'read', x
+            return None, None
+        r, x = scan(cfg.blocks[pos[0]], pos[1] + 1)
+        if r == 'write':
+            out.append((a, x))
+            continue
+        if r == 'read':
+            continue
+        seen = set()
+        st = list(cfg.succ[pos[0]])
+        hit = None
+        while st and hit is None:
+            b = st.pop()
+            if b in seen:
+                continue
+            seen.add(b)
+            r, x = scan(cfg.blocks[b], 0)
+            if r == 'write':
+                hit = x
+            elif r is None:
+                st.extend(cfg.succ[b])
+        if hit is not None:
+            out.append((a, hit))
+    return out
